@@ -607,6 +607,8 @@ class BaseWorkplace(object, metaclass=abc.ABCMeta):
         for step_time in sorted(absence_time_list, reverse=True):
             if step_time < len(self.cost_list):
                 self.cost_list.pop(step_time)
+            if step_time < len(self.placed_component_id_record):
+                self.placed_component_id_record.pop(step_time)
 
     def insert_absence_time_list(self, absence_time_list):
         """
@@ -621,6 +623,13 @@ class BaseWorkplace(object, metaclass=abc.ABCMeta):
         for step_time in sorted(absence_time_list):
             if step_time < len(self.cost_list):
                 self.cost_list.insert(step_time, 0.0)
+            if step_time < len(self.placed_component_id_record):
+                if step_time == 0:
+                    self.placed_component_id_record.insert(step_time, [])
+                else:
+                    self.placed_component_id_record.insert(
+                        step_time, self.placed_component_id_record[step_time - 1]
+                    )
 
     def print_log(self, target_step_time):
         """
